@@ -1,7 +1,7 @@
 (* Serve.v — model of ONE connection's serve loop: server.go serveConnCounted, with its callers
    (Server.Serve + workerPool.workerFunc, Server.ServeConn) where they report connection states and
    close the connection, and hijackConnHandler.  Owner: C10 / C14 / C17; shared with the other
-   serve-loop properties.  Models /repo as of 0c9b9fb (after the fix: commits up to that one).
+   serve-loop properties.  Models /repo as of c40b715 (server.go as of a4aa200).
 
    INTERFACE FOR IMPORTERS
      scfg                   the Server fields the loop reads (ReduceMemoryUsage, StreamRequestBody, DisableKeepalive,
@@ -115,6 +115,7 @@ Inductive hop :=
 | HijackOp                      (* ctx.Hijack(h) *)
 | HijackNoResp (b : bool)       (* ctx.HijackSetNoResponse(b) *)
 | TimeoutOp                     (* ctx.TimeoutError(...): the response is replaced by the timeout response *)
+| SkipBodyOp                    (* ctx.Response.SkipBody = true *)
 | OtherOp.                      (* anything that does not touch the above (body, other headers, ...) *)
 
 Record env := {
@@ -122,7 +123,9 @@ Record env := {
   expect_status : N -> req_sum -> Z;     (* ExpectHandler(ctx); StatusContinue = go on *)
   continue_ok : N -> req_sum -> bool;    (* ContinueHandler(&header) *)
   stop_at_close : N -> bool;             (* s.stop.Load() == 1 where the close decision of request n is taken *)
-  stop_at_idle : N -> bool               (* s.stop.Load() == 1 after StateIdle of request n *)
+  stop_at_idle : N -> bool;              (* s.stop.Load() == 1 after StateIdle of request n *)
+  gone_at_start : N -> bool              (* at the first byte of request n: s.stop.Load() == 1 and Shutdown has already
+                                            closed this connection as idle (it is no longer in s.idleConns) *)
 }.
 
 (* ---------- events ---------- *)
@@ -150,18 +153,19 @@ Inductive event :=
 
 (* ---------- the handler's effect on ctx ---------- *)
 Record hstate := {
-  h_status : Z; h_rh : rhdr; h_hijack : bool; h_noresp : bool; h_timeout : bool }.
+  h_status : Z; h_rh : rhdr; h_hijack : bool; h_noresp : bool; h_timeout : bool; h_skip : bool }.
 Definition hstate_init : hstate :=
-  {| h_status := StatusOK; h_rh := rhdr_init; h_hijack := false; h_noresp := false; h_timeout := false |}.
+  {| h_status := StatusOK; h_rh := rhdr_init; h_hijack := false; h_noresp := false; h_timeout := false; h_skip := false |}.
 
 Definition apply_hop (h : hstate) (o : hop) : hstate :=
   match o with
-  | SetStatus c => {| h_status := c; h_rh := h_rh h; h_hijack := h_hijack h; h_noresp := h_noresp h; h_timeout := h_timeout h |}
-  | SetConnClose => {| h_status := h_status h; h_rh := rhdr_set_close (h_rh h); h_hijack := h_hijack h; h_noresp := h_noresp h; h_timeout := h_timeout h |}
-  | SetHdrConn v => {| h_status := h_status h; h_rh := rhdr_set_conn (h_rh h) v; h_hijack := h_hijack h; h_noresp := h_noresp h; h_timeout := h_timeout h |}
-  | HijackOp => {| h_status := h_status h; h_rh := h_rh h; h_hijack := true; h_noresp := h_noresp h; h_timeout := h_timeout h |}
-  | HijackNoResp b => {| h_status := h_status h; h_rh := h_rh h; h_hijack := h_hijack h; h_noresp := b; h_timeout := h_timeout h |}
-  | TimeoutOp => {| h_status := h_status h; h_rh := h_rh h; h_hijack := h_hijack h; h_noresp := h_noresp h; h_timeout := true |}
+  | SetStatus c => {| h_status := c; h_rh := h_rh h; h_hijack := h_hijack h; h_noresp := h_noresp h; h_timeout := h_timeout h; h_skip := h_skip h |}
+  | SetConnClose => {| h_status := h_status h; h_rh := rhdr_set_close (h_rh h); h_hijack := h_hijack h; h_noresp := h_noresp h; h_timeout := h_timeout h; h_skip := h_skip h |}
+  | SetHdrConn v => {| h_status := h_status h; h_rh := rhdr_set_conn (h_rh h) v; h_hijack := h_hijack h; h_noresp := h_noresp h; h_timeout := h_timeout h; h_skip := h_skip h |}
+  | HijackOp => {| h_status := h_status h; h_rh := h_rh h; h_hijack := true; h_noresp := h_noresp h; h_timeout := h_timeout h; h_skip := h_skip h |}
+  | HijackNoResp b => {| h_status := h_status h; h_rh := h_rh h; h_hijack := h_hijack h; h_noresp := b; h_timeout := h_timeout h; h_skip := h_skip h |}
+  | TimeoutOp => {| h_status := h_status h; h_rh := h_rh h; h_hijack := h_hijack h; h_noresp := h_noresp h; h_timeout := true; h_skip := h_skip h |}
+  | SkipBodyOp => {| h_status := h_status h; h_rh := h_rh h; h_hijack := h_hijack h; h_noresp := h_noresp h; h_timeout := h_timeout h; h_skip := true |}
   | OtherOp => h
   end.
 
@@ -169,7 +173,7 @@ Definition apply_hop (h : hstate) (o : hop) : hstate :=
    — the fresh ctx has no hijack handler and the timeout response has its own (empty) Connection state *)
 Definition after_handler (h : hstate) : hstate :=
   if h_timeout h
-  then {| h_status := StatusRequestTimeout; h_rh := rhdr_init; h_hijack := false; h_noresp := false; h_timeout := true |}
+  then {| h_status := StatusRequestTimeout; h_rh := rhdr_init; h_hijack := false; h_noresp := false; h_timeout := true; h_skip := false |}
   else h.
 
 Definition run_handler (ops : list hop) (h0 : hstate) : hstate := after_handler (fold_left apply_hop ops h0).
@@ -294,7 +298,7 @@ Definition release_rule (b : bytes) (fbr : bool) : bool * bool * bytes :=
 
 (* the handler's effect; st0 = status already set by a rejected expectation; cont = continueReadingRequest *)
 Definition hstate0 (st0 : Z) : hstate :=
-  {| h_status := st0; h_rh := rhdr_init; h_hijack := false; h_noresp := false; h_timeout := false |}.
+  {| h_status := st0; h_rh := rhdr_init; h_hijack := false; h_noresp := false; h_timeout := false; h_skip := false |}.
 Definition req_hstate (num : N) (q : req_sum) (cont : bool) (st0 : Z) : hstate :=
   if cont then run_handler (handler E num q) (hstate0 st0) else hstate0 st0.
 
@@ -308,9 +312,19 @@ Definition max_reached (num : N) : bool := ((0 <? max_reqs cfg) && (max_reqs cfg
 Definition stream_timeout_close (q : req_sum) (h : hstate) : bool :=
   stream_body cfg && negb (Z.eqb (q_cl q) (-2)) && h_timeout h.
 
+(* ResponseHeader.mustSkipContentLength: 1xx, 204, 304 *)
+Definition must_skip_content_length (st : Z) : bool :=
+  if Z.ltb st 100 || Z.eqb st StatusOK then false
+  else Z.eqb st StatusNotModified || Z.eqb st StatusNoContent || Z.ltb st 200.
+
+(* `else if ctx.Response.SkipBody && !ctx.Response.Header.mustSkipContentLength() { connectionClose = true }`
+   (not for HEAD): the handler skips the body of a response whose head announces one *)
+Definition skip_body_close (q : req_sum) (h : hstate) : bool :=
+  negb (q_head q) && h_skip h && negb (must_skip_content_length (h_status h)).
+
 (* connectionClose after all assignments; cc0 = set by a rejected expectation *)
 Definition close_decision (num : N) (q : req_sum) (cc0 : bool) (h : hstate) : bool :=
-  cc0 || disable_keepalive cfg || q_close q || stream_timeout_close q h || max_reached num || rh_close (h_rh h)
+  cc0 || disable_keepalive cfg || q_close q || skip_body_close q h || stream_timeout_close q h || max_reached num || rh_close (h_rh h)
   || (close_on_shutdown cfg && stop_at_close E num).
 
 (* the response header's Connection state when it is written *)
@@ -344,9 +358,9 @@ Definition finish_request (num : N) (q : req_sum) (cont : bool) (cc0 : bool) (st
     (* hjr = br or c; bw.Flush(); go hijackConnHandler(...); err = errHijacked; break *)
     (ev_disp ++ ev_resp ++ (if dirty1 then [Flush] else []) ++ [HijackEv (hj_src_of br fbr) b cs], ExitHijack)
   else
-    (* s.setState(c, StateIdle); if s.stop.Load() == 1 { break } *)
+    (* s.setState(c, StateIdle); if s.stop.Load() == 1 { bw.Flush(); break } *)
     if stop_at_idle E num
-    then (ev_disp ++ ev_resp ++ [St StIdle] ++ (if dirty1 then [Drop] else []), Exit)
+    then (ev_disp ++ ev_resp ++ [St StIdle] ++ (if dirty1 then [Flush] else []), Exit)
     else (ev_disp ++ ev_resp ++ [St StIdle],
           Next {| l_num := num; l_br := br; l_fbr := fbr; l_rd := {| buf := b; chunks := cs; tl := t |};
                   l_off := off; l_dirty := dirty1 |}).
@@ -443,7 +457,10 @@ Definition serve_iter (s : lst) : list event * iter_end :=
   | FbSilent => silent_exit (l_dirty s)
   | FbTimeout => error_exit EcTimeout
   | FbGot b0 cs0 fbr =>
-      (* idleConnTime.Store(0); s.setState(c, StateActive) *)
+      (* idleConnTime.Store(0); if s.stop.Load() == 1 && !tracked { break } *)
+      if gone_at_start E (l_num s + 1)%N then silent_exit (l_dirty s)
+      else
+      (* s.setState(c, StateActive) *)
       let r := serve_req s b0 cs0 fbr in
       (St StActive :: ParseAt (l_off s) (length b0) :: fst r, snd r)
   end.
